@@ -208,7 +208,7 @@ fn plan_for(prop: &str, thorough: bool) -> Plan {
             setups: vec![(Setup::CoreM, 4), (Setup::CoreD, 4), (Setup::Legacy, 3)],
             gen: GenCfg { event_then: true, ..base },
             steps,
-            cases: (40_000, 600_000),
+            cases: (40_000, 20_000_000),
             fu_per_mille: 0,
             max_layers: 1,
             rule: "random program (full AST incl. follow-up programs returned by update for emitted events) x random shell schedule through Core (command API via both effect macros, and legacy capability API); non-trivial = at least 3 core calls, 2 effects and 1 event; distinct = hash of (program, history)",
@@ -222,7 +222,7 @@ fn plan_for(prop: &str, thorough: bool) -> Plan {
             ],
             gen: GenCfg { script_weight: 15, ..base },
             steps: if thorough { (6, 60) } else { (6, 40) },
-            cases: (30_000, 400_000),
+            cases: (30_000, 8_000_000),
             fu_per_mille: 0,
             max_layers: 1,
             rule: "random programs with many simultaneously outstanding one-shot, stream and notification requests x histories with out-of-order, repeated and late resolutions, on the typed path (Request::resolve, Core::resolve), the legacy futures and the serialized bridges; every resolution carries a unique value so the event identifies the continuation that ran; non-trivial = at least 3 steps, 2 effects, 1 event; distinct = hash of (program, history)",
@@ -231,7 +231,7 @@ fn plan_for(prop: &str, thorough: bool) -> Plan {
             setups: vec![(Setup::CoreM, 4), (Setup::CoreD, 3), (Setup::Legacy, 3)],
             gen: GenCfg { event_then: true, script_weight: 30, ..base },
             steps,
-            cases: (40_000, 600_000),
+            cases: (40_000, 20_000_000),
             fu_per_mille: 0,
             max_layers: 1,
             rule: "script-heavy random programs emitting bursts of events through Core; non-trivial = at least 3 core calls, 2 effects and 1 event; distinct = hash of (program, history)",
@@ -240,7 +240,7 @@ fn plan_for(prop: &str, thorough: bool) -> Plan {
             setups: vec![(Setup::DirectM, 5), (Setup::DirectD, 3), (Setup::StreamM, 3), (Setup::EagerM, 2)],
             gen: base,
             steps,
-            cases: (60_000, 1_000_000),
+            cases: (60_000, 30_000_000),
             fu_per_mille: 0,
             max_layers: 1,
             rule: "random combinator / builder-chain / async-script expression x random resolve/drop/abort history on the command itself; non-trivial = at least 3 steps, 2 effects and 1 event; distinct = hash of (program, history)",
@@ -249,7 +249,7 @@ fn plan_for(prop: &str, thorough: bool) -> Plan {
             setups: vec![(Setup::AllTyped, 5), (Setup::AllWithBridges, 5), (Setup::Nested, 2), (Setup::LegacyLockstep, 3)],
             gen: base,
             steps,
-            cases: (15_000, 200_000),
+            cases: (15_000, 3_000_000),
             fu_per_mille: 0,
             max_layers: if thorough { 10 } else { 6 },
             rule: "one program and one history on up to 8 hosts in lock-step (direct, stream-polled, 1-10 neutral wrapper layers, Core via both macros, bincode and JSON bridges); non-trivial = at least 3 steps, 2 effects and 1 event; distinct = hash of (program, history)",
@@ -258,7 +258,7 @@ fn plan_for(prop: &str, thorough: bool) -> Plan {
             setups: vec![(Setup::DirectM, 4), (Setup::StreamM, 2), (Setup::EagerM, 1), (Setup::AllTyped, 3)],
             gen: GenCfg { script_weight: 20, ..base },
             steps,
-            cases: (30_000, 400_000),
+            cases: (30_000, 12_000_000),
             fu_per_mille: 0,
             max_layers: 3,
             rule: "random programs with abort handles and task aborts x histories biased to abort/drop/late resolution; non-trivial = at least one abort or drop followed by a later action, 2 effects; distinct = hash of (program, history)",
@@ -267,7 +267,7 @@ fn plan_for(prop: &str, thorough: bool) -> Plan {
             setups: vec![(Setup::DirectM, 5), (Setup::DirectD, 2), (Setup::StreamM, 3), (Setup::EagerM, 1)],
             gen: GenCfg { script_weight: 30, ..base },
             steps,
-            cases: (60_000, 1_000_000),
+            cases: (60_000, 30_000_000),
             fu_per_mille: 60,
             max_layers: 1,
             rule: "script-heavy random programs (requests, streams, join, select, join handles, self-waking futures) x resolve-some/drop-others histories ending in resolve-or-drop of everything; is_done compared after every step; non-trivial = at least 3 steps and 2 effects with is_done compared at least twice; distinct = hash of (program, history)",
@@ -276,7 +276,7 @@ fn plan_for(prop: &str, thorough: bool) -> Plan {
             setups: vec![(Setup::Bridges, 1)],
             gen: GenCfg { event_then: true, ..base },
             steps,
-            cases: (15_000, 200_000),
+            cases: (15_000, 3_000_000),
             fu_per_mille: 0,
             max_layers: 1,
             rule: "one program and one history (out-of-order responses) on a typed Core twin and four bridges (bincode/JSON x attribute/derive effect macro) in lock-step; non-trivial = at least 3 calls, 2 effects and 1 event; distinct = hash of (program, history)",
@@ -453,7 +453,7 @@ fn main() {
     }
     if args.prop == "C02" {
         // look-alike workload: equal operations, only the request identity tells them apart
-        let n = args.share(4_000, 400_000);
+        let n = args.share(4_000, 2_000_000);
         for case_no in 0..n {
             let mut rng = Rng::derive(seed, case_no, 202);
             let paths = cmdlab::lookalike::Path::all();
